@@ -57,6 +57,9 @@ def scenarios(flavour, n, max_edges, ats, tier, n_script=1):
         nodes = [[i, 100 + i] for i in range(n)]
         ops = script_ops(n, used)
         scripts = [[o] for o in ops]
+        if n_script == 'cc':
+            # two connects in one step: the lists grow by more than the loop advances
+            scripts = [[a, b] for a in ops for b in ops if a[0] == 'connect' and b[0] == 'connect']
         if n_script == 2:
             scripts += [[a, b] for a in ops for b in ops if a[0] in ('connect', 'disconnect', 'isolate') and b[0] in ('connect', 'disconnect', 'isolate')]
         for root in range(min(used + 1, n)):
@@ -113,13 +116,14 @@ def run(prop, tier, seed):
     for fl in FLAVOURS:
         if tier == 'quick':
             items += list(scenarios(fl, 3, 2, (0, 1), tier))
+            items += list(scenarios(fl, 3, 1, (0, 1), tier, n_script='cc'))
         else:
             items += list(scenarios(fl, 3, 3, (0, 1, 2), tier))
             items += list(scenarios(fl, 3, 1, (0, 1), tier, n_script=2))
     cells = sorted({str(c) for c, _ in items})
     return scenario_check(
         prop, tier, seed, items, evaluate, sig_of,
-        bounds={'nodes': 3, 'max_edges': 2 if tier == 'quick' else 3, 'script_length': 1 if tier == 'quick' else '1 (and 2 on <=1-edge graphs)',
+        bounds={'nodes': 3, 'max_edges': 2 if tier == 'quick' else 3, 'script_length': '1 (and two connects on <=1-edge graphs)' if tier == 'quick' else '1 (and 2 on <=1-edge graphs)',
                 'fires_at_step': [0, 1] if tier == 'quick' else [0, 1, 2],
                 'loops': 'iter_out, iter_in, iter, for .. in &node, and `.map(..).collect()` over the edge iterators (std consults size_hint there); bfs/dfs/pfs search_path, dfs search_cycle, pre/postorder with for_each; bfs with filter',
                 'scripted_ops': 'connect, try_connect, disconnect, isolate on any nodes; degree/predicate/lookup queries; nested bfs; clone+drop',
